@@ -1,0 +1,301 @@
+//go:build verif
+
+// Package verifsql is a recording, fault-injecting database/sql driver plus the
+// interpreter of transaction body scripts shared by the C11 verification drivers
+// (lib/store/sqlx and lib/store/sqlc, build tag verif). It knows nothing about sqlx.
+package verifsql
+
+import (
+	"context"
+	"database/sql"
+	"database/sql/driver"
+	"errors"
+	"io"
+	"strconv"
+)
+
+// Fault kinds: "" / "none" = no fault, "gen" = an error of the driver's own, the rest are the
+// sentinels database/sql, breakers and applications compare against.
+var kinds = map[string]error{
+	"badconn":  driver.ErrBadConn,
+	"conndone": sql.ErrConnDone,
+	"txdone":   sql.ErrTxDone,
+	"canceled": context.Canceled,
+	"deadline": context.DeadlineExceeded,
+}
+
+var (
+	ErrBegin    = errors.New("E:begin")
+	ErrCommit   = errors.New("E:commit")
+	ErrRollback = errors.New("E:rollback")
+)
+
+// ExecErr is the driver's own error for statement I; BodyErr an error made up by a body.
+type ExecErr struct{ I int }
+
+func (e *ExecErr) Error() string { return "E:exec:" + strconv.Itoa(e.I) }
+
+type BodyErr struct{ N int }
+
+func (e *BodyErr) Error() string { return "E:body:" + strconv.Itoa(e.N) }
+
+func faultErr(kind string, own error) error {
+	switch kind {
+	case "", "none":
+		return nil
+	case "gen":
+		return own
+	}
+	if e, ok := kinds[kind]; ok {
+		return e
+	}
+	return errors.New("verifsql: unknown fault kind " + kind)
+}
+
+// Sentinel names err by identity ("" if it is none of the known values).
+func Sentinel(err error) string {
+	switch e := err.(type) {
+	case *ExecErr:
+		return "exec:" + strconv.Itoa(e.I)
+	case *BodyErr:
+		return "body:" + strconv.Itoa(e.N)
+	}
+	switch err {
+	case ErrBegin:
+		return "begin"
+	case ErrCommit:
+		return "commit"
+	case ErrRollback:
+		return "rollback"
+	}
+	for k, v := range kinds {
+		if err == v {
+			return k
+		}
+	}
+	return ""
+}
+
+// Begin fault: kind and for how many consecutive attempts (only a bad connection is retried
+// by database/sql, so N matters for kind "badconn" only; other kinds fail every attempt).
+type BeginFault struct {
+	K string `json:"k"`
+	N int    `json:"n"`
+}
+
+type Stmt struct {
+	Op    string `json:"op"`    // exec | pexec | query
+	Fault string `json:"fault"` // fault kind
+	React string `json:"react"` // return | ignore | panic
+	P     int    `json:"p"`
+}
+
+type Final struct {
+	K string `json:"k"` // nil | err | panic
+	N int    `json:"n"`
+}
+
+// TxCase is the transaction half of a C11 case.
+type TxCase struct {
+	Begin    BeginFault `json:"begin"`
+	Commit   string     `json:"commit"`
+	Rollback string     `json:"rollback"`
+	Stmts    []Stmt     `json:"stmts"`
+	Final    Final      `json:"final"`
+	API      string     `json:"api"`  // transact | transactctx | cached | cachedctx
+	Log      int        `json:"log"`  // 0 all logs on | 1 DisableStmtLog | 2 DisableLog
+	Slow     bool       `json:"slow"` // every statement counts as slow
+}
+
+// Rec is the recording driver state of one case.
+type Rec struct {
+	Calls  []string
+	c      TxCase
+	begins int
+	cur    int // index of the body statement being executed
+}
+
+func (r *Rec) log(what string, err error) {
+	if err != nil {
+		r.Calls = append(r.Calls, what+":fail")
+	} else {
+		r.Calls = append(r.Calls, what+":ok")
+	}
+}
+
+// Open returns a *sql.DB on a fresh recording driver scripted by c.
+func Open(c TxCase) (*sql.DB, *Rec) {
+	r := &Rec{c: c}
+	return sql.OpenDB(connector{r}), r
+}
+
+type connector struct{ r *Rec }
+
+func (c connector) Connect(context.Context) (driver.Conn, error) { return conn{c.r}, nil }
+func (c connector) Driver() driver.Driver                        { return drv{} }
+
+type drv struct{}
+
+func (drv) Open(string) (driver.Conn, error) { return nil, errors.New("verifsql: use the connector") }
+
+type conn struct{ r *Rec }
+
+func (c conn) Close() error { return nil }
+
+func (c conn) Begin() (driver.Tx, error) {
+	var err error
+	f := c.r.c.Begin
+	if f.K == "badconn" {
+		if c.r.begins < f.N {
+			err = driver.ErrBadConn
+		}
+	} else {
+		err = faultErr(f.K, ErrBegin)
+	}
+	c.r.begins++
+	c.r.log("begin", err)
+	if err != nil {
+		return nil, err
+	}
+	return tx{c.r}, nil
+}
+
+// a driver call on behalf of the current body statement (database/sql may repeat it)
+func (r *Rec) stmt() error {
+	i := r.cur
+	var err error
+	if i < len(r.c.Stmts) {
+		err = faultErr(r.c.Stmts[i].Fault, &ExecErr{i})
+	}
+	r.log("exec:"+strconv.Itoa(i), err)
+	return err
+}
+
+func (c conn) ExecContext(context.Context, string, []driver.NamedValue) (driver.Result, error) {
+	if err := c.r.stmt(); err != nil {
+		return nil, err
+	}
+	return driver.RowsAffected(1), nil
+}
+
+func (c conn) QueryContext(context.Context, string, []driver.NamedValue) (driver.Rows, error) {
+	if err := c.r.stmt(); err != nil {
+		return nil, err
+	}
+	return &rows{}, nil
+}
+
+func (c conn) Prepare(string) (driver.Stmt, error) { return pstmt{c.r}, nil }
+
+type pstmt struct{ r *Rec }
+
+func (s pstmt) Close() error  { return nil }
+func (s pstmt) NumInput() int { return -1 }
+func (s pstmt) Exec([]driver.Value) (driver.Result, error) {
+	if err := s.r.stmt(); err != nil {
+		return nil, err
+	}
+	return driver.RowsAffected(1), nil
+}
+func (s pstmt) Query([]driver.Value) (driver.Rows, error) {
+	if err := s.r.stmt(); err != nil {
+		return nil, err
+	}
+	return &rows{}, nil
+}
+
+// one row, one int64 column
+type rows struct{ done bool }
+
+func (r *rows) Columns() []string { return []string{"c"} }
+func (r *rows) Close() error      { return nil }
+func (r *rows) Next(dest []driver.Value) error {
+	if r.done {
+		return io.EOF
+	}
+	r.done = true
+	dest[0] = int64(1)
+	return nil
+}
+
+type tx struct{ r *Rec }
+
+func (t tx) Commit() error {
+	err := faultErr(t.r.c.Commit, ErrCommit)
+	t.r.log("commit", err)
+	return err
+}
+
+func (t tx) Rollback() error {
+	err := faultErr(t.r.c.Rollback, ErrRollback)
+	t.r.log("rollback", err)
+	return err
+}
+
+// Ops is what a body does to its session, supplied by the package under test.
+type Ops struct {
+	Exec     func(q string) error // session.Exec
+	PrepExec func(q string) error // session.Prepare + stmt.Exec
+	Query    func(q string) error // session.QueryRow into an int64
+}
+
+// RunBody interprets the body script once: Runs counts entries, Seen records for every issued
+// statement whether the body got a non-nil error.
+type BodyObs struct {
+	Runs int
+	Seen []bool
+}
+
+func RunBody(c TxCase, r *Rec, ops Ops, o *BodyObs) error {
+	o.Runs++
+	for i, st := range c.Stmts {
+		r.cur = i
+		var err error
+		q := "update t set x = " + strconv.Itoa(i)
+		switch st.Op {
+		case "pexec":
+			err = ops.PrepExec(q)
+		case "query":
+			err = ops.Query("select " + strconv.Itoa(i))
+		default:
+			err = ops.Exec(q)
+		}
+		o.Seen = append(o.Seen, err != nil)
+		if err != nil {
+			switch st.React {
+			case "return":
+				return err
+			case "panic":
+				panic("P:" + strconv.Itoa(st.P))
+			}
+		}
+	}
+	switch c.Final.K {
+	case "err":
+		return &BodyErr{c.Final.N}
+	case "panic":
+		panic("P:" + strconv.Itoa(c.Final.N))
+	}
+	return nil
+}
+
+// ErrInfo describes an error without interpreting it.
+func ErrInfo(err error, extra func(error) string) any {
+	if err == nil {
+		return nil
+	}
+	name := func(e error) string {
+		if s := Sentinel(e); s != "" {
+			return s
+		}
+		if extra != nil {
+			return extra(e)
+		}
+		return ""
+	}
+	out := map[string]any{"is": name(err), "msg": err.Error()}
+	if u := errors.Unwrap(err); u != nil {
+		out["unwrap"] = name(u)
+	}
+	return out
+}
